@@ -148,7 +148,11 @@ def build_op(spec: dict, positions: List[List[float]], chops: List[List[List]]):
             op.add_side_edge(i, edge)
     for axis, chs in enumerate(chops):
         for ratio, count in chs:
-            op.chop(axis, count=count, length_ratio=ratio)
+            if isinstance(count, dict):
+                # a chop whose cell count follows from cell sizes, i.e. from the length of the edges at the time of grading
+                op.chop(axis, length_ratio=ratio, **count)
+            else:
+                op.chop(axis, count=count, length_ratio=ratio)
     if spec.get("zone"):
         op.set_cell_zone(spec["zone"])
     return op
@@ -270,7 +274,8 @@ class C12(core.Check):
         "a case is a history (quick: 4..14 calls, thorough: up to 20) over add / delete / assemble / clear / backport / "
         "move vertex / modify_patch / set_default_patch / merge_patches / write on 1..5 single-cell hexahedra of a lattice "
         "(random one of the 24 corner numberings, patch names on 0..3 sides, side/corner projections, arc edges, a cell zone, "
-        "one or two count-only chops per axis that agree on shared edges); a separate stream holds rejected calls "
+        "one or two count-only chops per axis that agree on shared edges); a stream of single hexahedra with size-based chops "
+        "(start_size / end_size / c2c_expansion) that are written, dragged at corners and written again (oracle only); a separate stream holds rejected calls "
         "(backport/write of a mesh without blocks, an operation without chops). Non-trivial = the history contains at "
         "least one successful write; distinct = different history or model."
     )
@@ -436,7 +441,11 @@ class C12(core.Check):
                     steps.append(["bkp"])
             elif r < 0.67:
                 st = rng.choice([None, None, [], ["neighbourPatch pb"], ["transform none", "k v"]])
-                steps.append(["mod", rng.choice(names), rng.choice(["wall", "patch", "cyclic", "empty"]), st])
+                name = rng.choice(names)
+                steps.append(["mod", name, rng.choice(["wall", "patch", "cyclic", "empty"]), st])
+                if st and rng.random() < 0.5:
+                    # a later call that changes the type only: by contract the settings given before stay
+                    steps.append(["mod", name, rng.choice(["wall", "patch", "cyclic"]), None])
             elif r < 0.70:
                 # now and then the default patch is named like a patch of the model (which may be gone by the time of writing)
                 steps.append(["def", rng.choice(["dflt", "rest"] + names), rng.choice(["wall", "patch"])])
@@ -500,8 +509,44 @@ class C12(core.Check):
         steps = [["add", e] for e in order] + [["wr"], ["wr"], ["wr"], ["clr"], ["asm"], ["wr"], ["bkp"], ["wr"], ["wr"]]
         return {"kind": "prop", "ops": ops, "counts": counts, "entities": [[i] for i in range(n_ops)], "frame": frame, "steps": steps}
 
+    def _sized_case(self, rng: random.Random) -> dict:
+        """One hexahedron whose chops are size-based on one or two axes (the cell count follows from the edge lengths when
+        the mesh is graded); it is written, vertices are moved on the assembled mesh, and it is written again — without and
+        with backport() / clear()+assemble() in between."""
+        model = self._model(rng, 1)
+        model["entities"] = [[0]]
+        origin, scale = model["frame"]
+        for d in rng.sample(range(3), rng.randint(1, 2)):
+            k = rng.randrange(4)
+            size = scale * rng.choice([0.05, 0.08, 0.125, 0.2])
+            if k == 0:
+                ch = [[1.0, {"start_size": size}]]
+            elif k == 1:
+                ch = [[1.0, {"end_size": size}]]
+            elif k == 2:
+                ch = [[1.0, {"start_size": size, "c2c_expansion": rng.choice([1.1, 1.2])}]]
+            else:
+                ch = [[0.5, {"start_size": size}], [0.5, {"end_size": size}]]
+            model["counts"][str(d)] = [ch, ch, ch]
+        steps: List[list] = [["add", 0], ["wr"]]
+        if rng.random() < 0.4:
+            steps.append(["wr"])
+        for round_no in range(rng.randint(1, 2)):
+            for k in range(rng.randint(1, 3)):
+                # a corner is dragged outwards by 0.3 .. 1.5 cell sizes: edge lengths change by tens of per cent
+                delta = [0.0, 0.0, 0.0]
+                delta[rng.randrange(3)] = scale * rng.choice((-1, 1)) * (0.3 + 0.2 * rng.randrange(7) + 0.013 * (3 * round_no + k))
+                steps.append(["nudge", rng.randrange(8), delta])
+            steps.append(["wr"])
+            r = rng.random()
+            if r < 0.35:
+                steps += [["bkp"], ["wr"]]
+            elif r < 0.5:
+                steps += [["wr"]]
+        return {"kind": "sized", **model, "steps": steps}
+
     def gen_cases(self, rng: random.Random, tier: str) -> List[dict]:
-        n = 220 if tier == "quick" else 4000
+        n = 220 if tier == "quick" else 3000
         cases = []
         for _ in range(n):
             model = self._model(rng, rng.randint(1, 5))
@@ -510,6 +555,9 @@ class C12(core.Check):
         # any mutual orientation; the same mesh is written several times and re-assembled (oracle only, no model)
         for _ in range(24 if tier == "quick" else 300):
             cases.append(self._prop_case(rng))
+        # cell counts that follow from edge lengths: write, move vertices, write again (oracle only, no model)
+        for _ in range(20 if tier == "quick" else 300):
+            cases.append(self._sized_case(rng))
         # rejected calls / boundary
         for _ in range(12 if tier == "quick" else 120):
             model = self._model(rng, rng.randint(1, 3))
@@ -651,7 +699,14 @@ class C12(core.Check):
                     try:
                         open(path, "w").close()
                         mesh.write(path)
-                        o = {"text": open(path, encoding="utf-8").read()}
+                        op_index = {id(op): i for i, op in ops.items()}
+                        o = {
+                            "text": open(path, encoding="utf-8").read(),
+                            "blocks": [
+                                [op_index.get(id(op), -1), [int(v.index) for v in block.vertices]]
+                                for block, op in zip(mesh.blocks, getattr(mesh, "assembled", []))
+                            ],
+                        }
                     except Exception as e:
                         o = {"err": type(e).__name__}
                 obs.append(o)
@@ -771,6 +826,7 @@ class C12(core.Check):
                     "assembled": assembled,
                     "pending": pending,
                     "moved": bool(moves),
+                    "moves": {k: list(v) for k, v in moves.items()},
                     "weird": dup or twice,
                     "weird_before": weird_before,
                     "pos": {i: [list(p) for p in ps] for i, ps in pos.items()},
@@ -797,8 +853,18 @@ class C12(core.Check):
             for n, (st, o, sh) in enumerate(zip(case["steps"], obs, shadow)):
                 if st[0] != "wr" or not (isinstance(o, dict) and "text" in o):
                     continue
-                if sh["pending"] or sh["moved"] or sh["weird"]:
+                if sh["pending"] or sh["weird"]:
                     continue
+                pos = sh["pos"]
+                if sh["moved"]:
+                    # vertices were moved on the assembled mesh and not back-ported: the equivalent model has the moved
+                    # positions from the start (every corner is where the vertex its block holds there is now)
+                    held = {i: vidx for i, vidx in o.get("blocks", [])}
+                    if set(held) != {i for i in sh["depot"] if i not in sh["deleted"]} or len(held) != len(o.get("blocks", [])):
+                        continue
+                    pos = dict(pos)
+                    for i, vidx in held.items():
+                        pos[i] = [list(sh["moves"].get(v, pos[i][c])) for c, v in enumerate(vidx)]
                 mesh = cb.Mesh()
                 for i in sh["depot"]:
                     if i in sh["deleted"]:
@@ -807,7 +873,7 @@ class C12(core.Check):
                     chops = local_chops(spec, case["counts"])
                     for a in spec.get("unchop", []):
                         chops[a] = []
-                    mesh.add(build_op(spec, sh["pos"][i], chops))
+                    mesh.add(build_op(spec, pos[i], chops))
                 for name, props in sh["geometry"].items():
                     mesh.add_geometry({name: props})
                 for m in sh["merges"]:
@@ -850,8 +916,10 @@ class C12(core.Check):
         return ",".join(core.rat(float(x)) for x in p)
 
     def requests(self, case: dict, impl: Any) -> List[str]:
-        if case["kind"] == "prop":
-            return []  # gradings propagated between blocks are outside the model (C01/C02/C04): oracle only
+        if case["kind"] in ("prop", "sized"):
+            # gradings propagated between blocks (C01/C02/C04) and cell counts that follow from edge lengths (log / pow of
+            # float lengths) are outside the model: oracle only
+            return []
         loc, arcs = self._tables(case, impl)
         toks = []
         seen = set()
@@ -1176,6 +1244,9 @@ class C12(core.Check):
                         site = "Mesh.delete:file-differs-from-mesh-without-operation" if "del" in hist and "bkp" not in hist and "clr" not in hist else "Mesh:file-differs-from-fresh-equivalent"
                         if "bkp" in hist and any(s[0] == "del" for s in steps[:n]):
                             site = "Mesh.backport:file-differs-from-fresh-equivalent"
+                        if sh["moved"]:
+                            # written after vertices were moved on the assembled mesh (no backport / clear in between)
+                            site = "Mesh.write:file-after-moves-differs-from-fresh-model-at-moved-positions"
                         out.append({"site": site, "what": f"call {n}: {why}", "observed": why})
             # O3': one hex per operation that has a block
             if not sh["weird"] and len(parsed["blocks"]) != len(sh["asm_ops"]):
